@@ -113,7 +113,10 @@ def gen_compat_case(rng):
     order, rev, inc = rng.choice(list(gu.layouts(d)))
     a = gu.make_spec("uniform", dims, order, rev, inc, rng.choice(["cells", "points"]), rng.randint(0, 1))
     b, how = perturb(rng, a)
-    return {"type": "compat", "a": a, "b": b, "how": how}
+    case = {"type": "compat", "a": a, "b": b, "how": how}
+    if rng.random() < 0.4:
+        case["relocate"] = rng.choice(["a", "b"])
+    return case
 
 
 # ------------------------------------------------------------------------------------------------
@@ -333,8 +336,18 @@ def oracle_pair(case, impl):
 
 def run_compat(case):
     ga, gb = gu.build_grid(case["a"]), gu.build_grid(case["b"])
-    return {"ga": ga, "gb": gb, "compatible": safe(ga.compatible_with, gb), "eq": safe(ga.__eq__, gb),
-            "compatible_rev": safe(gb.compatible_with, ga)}
+    out = {"ga": ga, "gb": gb, "compatible": safe(ga.compatible_with, gb), "eq": safe(ga.__eq__, gb),
+           "compatible_rev": safe(gb.compatible_with, ga)}
+    if case.get("relocate"):
+        # the same two objects asked again after one of them was switched between cell and point data (public setter):
+        # the answer is about what the grids describe *now*
+        first = {"same": ga.dim == gb.dim and ga.data_location == gb.data_location and locset(ga) == locset(gb),
+                 "compatible": out["compatible"], "compatible_rev": out["compatible_rev"], "eq": out["eq"]}
+        tgt = gb if case["relocate"] == "b" else ga
+        tgt.data_location = fm.Location.POINTS if tgt.data_location == fm.Location.CELLS else fm.Location.CELLS
+        out.update({"first": first, "compatible": safe(ga.compatible_with, gb), "eq": safe(ga.__eq__, gb),
+                    "compatible_rev": safe(gb.compatible_with, ga)})
+    return out
 
 
 def locset(g):
@@ -343,6 +356,10 @@ def locset(g):
 
 def oracle_compat(case, impl):
     ga, gb = impl["ga"], impl["gb"]
+    f = impl.get("first")
+    if f and (f["compatible"] != f["same"] or f["compatible_rev"] != f["same"]):
+        return ("compatible_with <=> same location kind and same set of data locations",
+                {"compatible": f["compatible"], "reverse": f["compatible_rev"], "same_locations": f["same"]})
     same = ga.dim == gb.dim and ga.data_location == gb.data_location and locset(ga) == locset(gb)
     if impl["compatible"] != same or impl["compatible_rev"] != same:
         return ("compatible_with <=> same location kind and same set of data locations",
@@ -378,8 +395,9 @@ def evaluate(case, models, res):
     if case["type"] == "compat":
         impl = run_compat(case)
         md = models[0]
-        if impl["compatible"] != md["compatible"] or impl["eq"] != md["eq"]:
-            res.diverge("canonical/compatible_with", case, {"compatible": impl["compatible"], "eq": impl["eq"]},
+        first = impl.get("first") or impl     # (the model answers for the grids as specified; a relocation follows)
+        if first["compatible"] != md["compatible"] or first["eq"] != md["eq"]:
+            res.diverge("canonical/compatible_with", case, {"compatible": first["compatible"], "eq": first["eq"]},
                         {"compatible": md["compatible"], "eq": md["eq"]})
         o = oracle_compat(case, impl)
     else:
